@@ -49,7 +49,8 @@ def run_job(job, w):
             r = harness.run_scenario(flowir, script, loc, perturb_seed=sc["pseed"],
                                      jitter_p=sc["jitter_p"], jitter_max=sc["jitter_max"], storm=sc["storm"],
                                      watchdog_s=job.get("watchdog_s", 120.0), continue_on_error=False,
-                                     extra_files=extra, slow_stagein=sc.get("slow_stagein"))
+                                     extra_files=extra, slow_stagein=sc.get("slow_stagein"), pauses=sc.get("pauses"),
+                                     pause_on_launch=sc.get("pause_on_launch"))
         finally:
             shutil.rmtree(loc, ignore_errors=True)
         w.evaluated()
@@ -120,6 +121,25 @@ def make_scenarios(n, salt, thorough):
         dw = wfgen.gen_dowhile(rng, max_iter=3 if not thorough else rng.choice([3, 3, 12]))
         out[i] = {**dw, "pseed": rng.randrange(1 << 30), "jitter_p": rng.choice([0.0, 0.3, 0.6]),
                   "jitter_max": 0.02, "storm": rng.random() < 0.5}
+    # pause / resume: the controller is put to sleep and woken up again (its own sleep() / wake_up() interface) 1-3
+    # times during every DoWhile run and a quarter of the others; finished-notifications that arrive meanwhile are
+    # postponed and replayed by wake_up()
+    prng = vlib.rng(PROP, salt, "pauses")
+    for i, sc in enumerate(out):
+        if sc.get("kind") == "dowhile" or i % 4 == 2:
+            t = 0.0
+            ps = []
+            for _ in range(prng.randint(1, 3)):
+                t += prng.choice([2.0, 4.0, 6.0, 9.0, 14.0])
+                d = prng.choice([1.0, 3.0, 6.0, 12.0])
+                ps.append([t, d])
+                t += d
+            sc["pauses"] = ps
+        if sc.get("kind") == "dowhile" and prng.random() < 0.6:
+            # ... or exactly around every loop condition: the controller sleeps from the launch of each condition task
+            # until a few virtual seconds after its exit, so the next iteration is instantiated by wake_up()'s replay
+            sc.pop("pauses", None)
+            sc["pause_on_launch"] = {"match": "#cond", "dur": prng.choice([3.0, 5.0, 8.0])}
     return out
 
 
